@@ -34,6 +34,26 @@ def build_tree(root, rng):
             p = os.path.join(d, f) if d else f
             open(os.path.join(root, p), "w").write("x = 1\n")
             files.append(p)
+    # the same file reachable under two names: a symbolic link inside the tree to another file of the tree (and now
+    # and then a link to a directory, which the walk lists but does not follow)
+    if files and rng.random() < 0.45:
+        for k in range(rng.randint(1, 2)):
+            tgt = rng.choice(files)
+            d = rng.choice(dirs)
+            name = rng.choice(["alias_%d.py" % k, "legacy_%d.py" % k, "zz_link_%d.py" % k, "link_%d.txt" % k])
+            p = os.path.join(d, name) if d else name
+            if p in files:
+                continue
+            try:
+                os.symlink(os.path.relpath(os.path.join(root, tgt), os.path.join(root, d)), os.path.join(root, p))
+                files.append(p)
+            except OSError:
+                pass
+    if len(dirs) > 1 and rng.random() < 0.2:
+        try:
+            os.symlink(rng.choice(dirs[1:]).split("/")[0], os.path.join(root, "zz_dirlink"))
+        except OSError:
+            pass
     return dirs, files
 
 
